@@ -1,8 +1,131 @@
 import TRV.Oracle.Util
-/-! Oracle operations: Alloc (stub, filled in by the module that owns it). -/
-namespace TRV.Oracle.Alloc
-open TRV.Oracle
+import TRV.Spec.Alloc
+/-! Oracle operations for C11: the allocator models, the range specs evaluated on implementation
+    output, `FlowsDistinct…` evaluated on pairs of run configurations, the F11 witness.
 
-def handlers : List (String × Handler) := []
+* `alloc.pid <cur> <n>*`                 → `<base>* c:<counter>`   (sequential `AllocPacketID` calls)
+* `alloc.echo <cur> <m>`                 → `<id>* c:<counter>`     (`m` consecutive `nextEchoID` calls)
+* `alloc.disjoint <base>:<n> …`          → `1`/`0`  `Spec.pairwiseDisjointB` on returned blocks
+* `alloc.distinct <id> …`                → `1`/`0`  `Spec.distinctB`
+* `alloc.flows.icmp  eA tA eB tB`
+* `alloc.flows.udp   <l lp t tp loosen>×2`
+* `alloc.flows.tcp   <l lp t tp loosen base seq min max>×2`   (default mode; all TTLs min..max sent)
+* `alloc.flows.sack  <l lp t tp loosen min max isn>×2`
+* `alloc.flows.udptcp <l lp t tp loosen min max> <l lp t tp loosen base seq min max>`
+* `alloc.f11`                            → the cross-protocol witness of `Props.C11` section 5 -/
+namespace TRV.Oracle.Alloc
+open TRV TRV.Oracle TRV.Alloc TRV.Drv
+
+def showBlocks (bs : List Block) : List String := bs.map (fun b => toString b.1.toNat)
+
+def pid : Handler
+  | cur :: ns => orBad do
+    let c ← cur.toNat?
+    if c ≥ 4294967296 then none
+    let reqs ← ns.mapM (fun s => do
+      let n ← s.toNat?
+      if n ≥ 256 then none else pure (BitVec.ofNat 8 n))
+    -- `Props.C11.c11_oracle_forms`: these are `(allocSeq c reqs).1` and `.2`
+    let bs := blocks (BitVec.ofNat 32 c) reqs
+    let ctr := reqs.foldl (fun c n => (packetID c n).2) (BitVec.ofNat 32 c)
+    pure (" ".intercalate (showBlocks bs ++ [s!"c:{ctr.toNat}"]))
+  | _ => badOp
+
+def echo : Handler
+  | [cur, m] => orBad do
+    let c ← cur.toNat?
+    if c ≥ 4294967296 then none
+    let m ← m.toNat?
+    -- `Props.C11.c11_oracle_forms`: these are `(echoSeq c m).1` and `.2`
+    let ids := echoIds (BitVec.ofNat 32 c) m
+    let ctr : BitVec 32 := BitVec.ofNat 32 c + BitVec.ofNat 32 m
+    pure (" ".intercalate (ids.map (fun x => toString x.toNat) ++ [s!"c:{ctr.toNat}"]))
+  | _ => badOp
+
+def parseBlock (s : String) : Option Block :=
+  match splitOn s ':' with
+  | [b, n] => do
+    let b ← b.toNat?
+    if b ≥ 65536 then none
+    pure (BitVec.ofNat 16 b, ← n.toNat?)
+  | _ => none
+
+def disjoint : Handler := fun args => orBad do
+  let bs ← args.mapM parseBlock
+  pure (showBool (Spec.pairwiseDisjointB bs))
+
+def distinct : Handler := fun args => orBad do
+  let ids ← args.mapM (fun s => do
+    let v ← s.toNat?
+    if v ≥ 65536 then none else pure (BitVec.ofNat 16 v))
+  pure (showBool (Spec.distinctB ids))
+
+def flowsIcmp : Handler
+  | [eA, tA, eB, tB] => orBad do
+    let a : IcmpCfg := { localA := [], target := ← parseHex tA, echoId := ← eA.toNat?, min := 1, max := 1 }
+    let b : IcmpCfg := { localA := [], target := ← parseHex tB, echoId := ← eB.toNat?, min := 1, max := 1 }
+    pure (showBool (decide (Spec.FlowsDistinctIcmp a b)))
+  | _ => badOp
+
+def parseUdp : List String → Option UdpCfg
+  | [l, lp, t, tp, lo] => do
+    pure { localA := ← parseHex l, lport := ← lp.toNat?, target := ← parseHex t, tport := ← tp.toNat?, loosen := ← parseBool lo }
+  | _ => none
+
+def flowsUdp : Handler := fun args => orBad do
+  if args.length ≠ 10 then none
+  let a ← parseUdp (args.take 5)
+  let b ← parseUdp (args.drop 5)
+  pure (showBool (decide (Spec.FlowsDistinctUdp a b)))
+
+/-- a default-mode TCP run and the probes it sends for TTLs min..max -/
+def parseTcp : List String → Option (TcpCfg × List Sent)
+  | [l, lp, t, tp, lo, base, sq, mn, mx] => do
+    let cfg : TcpCfg := { localA := ← parseHex l, lport := ← lp.toNat?, target := ← parseHex t, tport := ← tp.toNat?,
+                          loosen := ← parseBool lo, paris := false, baseId := ← base.toNat?, seq := ← sq.toNat? }
+    let mn ← mn.toNat?
+    let mx ← mx.toNat?
+    let sent := (List.range' mn (mx + 1 - mn)).map (fun ttl =>
+      ({ ttl, id := (tcpIds cfg ttl 0).1, seq := (tcpIds cfg ttl 0).2, time := 0 } : Sent))
+    pure (cfg, sent)
+  | _ => none
+
+def flowsTcp : Handler := fun args => orBad do
+  if args.length ≠ 18 then none
+  let a ← parseTcp (args.take 9)
+  let b ← parseTcp (args.drop 9)
+  pure (showBool (decide (Spec.FlowsDistinctTcp a.1 b.1 a.2 b.2)))
+
+def parseSack : List String → Option SackCfg
+  | [l, lp, t, tp, lo, mn, mx, isn] => do
+    pure { localA := ← parseHex l, lport := ← lp.toNat?, target := ← parseHex t, tport := ← tp.toNat?,
+           loosen := ← parseBool lo, min := ← mn.toNat?, max := ← mx.toNat?, isn := ← isn.toNat?, iack := 0, ts := none }
+  | _ => none
+
+def flowsSack : Handler := fun args => orBad do
+  if args.length ≠ 16 then none
+  let a ← parseSack (args.take 8)
+  let b ← parseSack (args.drop 8)
+  pure (showBool (Spec.flowsDistinctSackB a b))
+
+def flowsUdpTcp : Handler := fun args => orBad do
+  if args.length ≠ 16 then none
+  let u ← parseUdp (args.take 5)
+  let mn ← (← args[5]?).toNat?
+  let mx ← (← args[6]?).toNat?
+  let su := (List.range' mn (mx + 1 - mn)).map (fun ttl => ({ ttl, id := udpId u ttl, seq := 0, time := 0 } : Sent))
+  let c ← parseTcp (args.drop 7)
+  pure (showBool (decide (Spec.FlowsDistinctUdpTcp u c.1 su c.2)))
+
+/-- `pkt reversePkt tcpProbe udpProbe seq'` of the model-level witness -/
+def f11 : Handler
+  | [] => " ".intercalate [toHex Spec.f11Pkt, toHex (Spec.f11TE Spec.f11Router Spec.f11Local Spec.f11UdpProbe),
+                            toHex Spec.f11TcpSt.2, toHex Spec.f11UdpProbe, toString Spec.f11TcpCfg'.seq]
+  | _ => badOp
+
+def handlers : List (String × Handler) :=
+  [("alloc.pid", pid), ("alloc.echo", echo), ("alloc.disjoint", disjoint), ("alloc.distinct", distinct),
+   ("alloc.flows.icmp", flowsIcmp), ("alloc.flows.udp", flowsUdp), ("alloc.flows.tcp", flowsTcp),
+   ("alloc.flows.sack", flowsSack), ("alloc.flows.udptcp", flowsUdpTcp), ("alloc.f11", f11)]
 
 end TRV.Oracle.Alloc
